@@ -324,6 +324,7 @@ class Run:
         known, _fixed = load_known(self.prop)
         os.makedirs(REPLAYS, exist_ok=True)
         seen_sig = set()
+        per_kind = {}
         out_lines = []
         nviol = 0
         for (c, m, prelude, epilogue) in self.mismatches:
@@ -337,7 +338,8 @@ class Run:
                 self.known_hit.setdefault(hit["key"], [hit, 0])[1] += 1
                 continue
             nviol += 1
-            if key in seen_sig or len(seen_sig) >= 25:
+            per_kind[m["kind"]] = per_kind.get(m["kind"], 0) + 1
+            if key in seen_sig or len(seen_sig) >= 25 or per_kind[m["kind"]] > 3:
                 continue
             seen_sig.add(key)
             h = hashlib.sha1(key.encode()).hexdigest()[:10]
